@@ -976,7 +976,7 @@ MDSDRV_Converter::MDSDRV_Converter(Song& song)
 	auto vol = 0;
 	if(vol_str.size())
 	{
-		std::strtoul(vol_str.c_str(), NULL, 0);
+		vol = std::strtoul(vol_str.c_str(), NULL, 0);
 		if(vol > 127)
 			vol = 127;
 	}
